@@ -6,6 +6,10 @@ R03.3 TiiShock is energy-flux continuity across the front with the plasma at res
 R03.4 initial data: integration starts at v = mu(vw, v+) from (vw, T+); kappa integrates the same ODE from the same data
 R03.5 kappa integrand xi^2 v^2 gamma^2 w, prefactor 4/(vw^3 w_n alpha_n), rarefaction with opposite sign and low-T enthalpy
 R03.6 the template model's fluid ODE agrees term-wise with shockDE
+
+Locals and nested helper functions are identified by their role (the function handed to solve_ivp as `events`, the function whose root
+is searched, the local holding a solve_ivp result, the summand of the returned efficiency factor that integrates over a given
+solution ...), never by their spelling; everything arithmetic is compared at term level.
 """
 from __future__ import annotations
 
@@ -14,10 +18,120 @@ import ast
 import sympy as sp
 
 from ..core import AnchorMissing, Check, Undecided, calls_in, dotted, kwarg, own_nodes, src
+from ..flow import CFG
 from ..hydro import HY, TM, fn, hydro_extractor, n, th
+from ..nf import Ctx, eqx, has, match
 from ..terms import Extractor, ITE, is_zero
 
 LEVEL = "other"
+SIMPSON = sp.Function("simpson")
+COMP = sp.Function("COMP")
+
+
+# ------------------------------------------------------------------------------------------------ roles
+
+
+def _params(fi) -> list:
+    return [a.arg for a in fi.node.args.args if a.arg not in ("self", "cls")]
+
+
+def _definition(cx: Ctx, e):
+    """the expression a chain of single-assignment temporaries stands for (node identity is kept)"""
+    defs = cx.local_defs()
+    for _ in range(8):
+        if isinstance(e, ast.Name) and e.id in defs:
+            e = defs[e.id]
+        else:
+            break
+    return e
+
+
+def _assigned_name(fnode, call) -> str | None:
+    """the local a call's result is stored in"""
+    for st in own_nodes(fnode):
+        if isinstance(st, (ast.Assign, ast.AnnAssign)) and st.value is call:
+            t = st.targets[0] if isinstance(st, ast.Assign) else st.target
+            if isinstance(t, ast.Name):
+                return t.id
+    return None
+
+
+def _nested_by_role(S, outer: str, fo, calls, kw: str, pos: int, what: str):
+    """the nested function of `outer` that every one of `calls` receives as argument kw/pos"""
+    cx = Ctx(S, fo)
+    names = set()
+    for c in calls:
+        a = kwarg(c, kw, pos)
+        a = _definition(cx, a) if a is not None else None
+        names.add(a.id if isinstance(a, ast.Name) else None)
+    if len(names) != 1 or None in names or not S.has_func(f"{outer}.{next(iter(names))}"):
+        raise AnchorMissing(f"{outer.split(':')[-1]}: the nested function used as {what} not found")
+    return S.func(f"{outer}.{next(iter(names))}")
+
+
+def _event_function(S, outer: str):
+    """(nested front-condition function, the solve_ivp calls it terminates).  The function is the one handed to solve_ivp as `events`;
+    when no integration uses an event (a violation reported by the caller) it is the nested function whose `.terminal` attribute is set."""
+    fo = S.func(outer)
+    ivp = [c for c in calls_in(fo.node, "solve_ivp") if kwarg(c, "events", 6) is not None]
+    if ivp:
+        return _nested_by_role(S, outer, fo, ivp, "events", 6, "`events` of solve_ivp"), ivp
+    marked = {st.targets[0].value.id for st in own_nodes(fo.node) if isinstance(st, ast.Assign) and isinstance(st.targets[0], ast.Attribute)
+              and st.targets[0].attr == "terminal" and isinstance(st.targets[0].value, ast.Name) and S.has_func(f"{outer}.{st.targets[0].value.id}")}
+    if len(marked) != 1:
+        raise AnchorMissing(f"{outer.split(':')[-1]}: no solve_ivp call with an `events` function and no nested function marked `.terminal`")
+    return S.func(f"{outer}.{next(iter(marked))}"), ivp
+
+
+def _state_symbols(ex: Extractor, fi):
+    """(v, xi, second state component) symbols of an ODE right-hand side / event function f(v, state, ...)"""
+    p = _params(fi)
+    if len(p) < 2:
+        raise AnchorMissing(f"{fi.qual}: expected parameters (v, state, ...)")
+    return ex.sym(p[0]), ex.sym(f"{p[1]}[0]"), ex.sym(f"{p[1]}[1]")
+
+
+def _value_at(g: CFG, cx: Ctx, at, e):
+    """defining expression of a local used at CFG node `at`: through single-assignment temporaries, else the unique reaching definition"""
+    for _ in range(6):
+        if not isinstance(e, ast.Name):
+            break
+        d = cx.local_defs().get(e.id)
+        if d is None:
+            rd = [x for x in g.reaching_defs(at, e.id)]
+            if len(rd) == 1 and rd[0] is not CFG.ENTRY and isinstance(rd[0], (ast.Assign, ast.AnnAssign)) and rd[0].value is not None \
+                    and isinstance(rd[0].targets[0] if isinstance(rd[0], ast.Assign) else rd[0].target, ast.Name):
+                at, d = rd[0], rd[0].value
+        if d is None:
+            break
+        e = d
+    return e
+
+
+def _first(e):
+    return e.elts[0] if isinstance(e, (ast.List, ast.Tuple)) and e.elts else None
+
+
+def _two_wave_path(paths, what: str):
+    """the path on which both the shock-wave and the rarefaction-wave contribution are computed (two Simpson integrals in the result)"""
+    full = [p for p in paths if isinstance(p.value, sp.Basic) and len([a for a in p.value.atoms(sp.Function) if a.func == SIMPSON]) == 2]
+    if len(full) != 1:
+        raise Undecided(f"{what}: expected one path with both wave contributions, found {len(full)}")
+    return full[0]
+
+
+def _contribution(value, sol: str):
+    """(summand of the efficiency factor integrating over solution `sol`, its Simpson call, x, y)"""
+    for term in sp.Add.make_args(value):
+        calls = [a for a in term.atoms(sp.Function) if a.func == SIMPSON]
+        if len(calls) == 1 and len(calls[0].args) == 2:
+            xs = [a for a in calls[0].args if isinstance(a, sp.Symbol)]
+            if len(xs) == 1 and xs[0].name.startswith(f"{sol}.y"):
+                return term, calls[0], xs[0], [a for a in calls[0].args if a is not xs[0]][0]
+    return None, None, None, None
+
+
+# ------------------------------------------------------------------------------------------------ rules
 
 
 def _shockde(chk: Check):
@@ -25,23 +139,25 @@ def _shockde(chk: Check):
     ex = hydro_extractor(S, positive={"T"})
     fi = S.func(f"{HY}.shockDE")
     chk.touch(fi.name)
+    p = _params(fi)
+    if len(p) != 3:
+        raise AnchorMissing("shockDE: expected parameters (v, xiAndT, shockWave)")
     out = {}
     for shock in (True, False):
-        ps = [p for p in ex.paths(fi, {"shockWave": shock}) if p.raised is None]
+        ps = [q for q in ex.paths(fi, {p[2]: shock}) if q.raised is None]
         if len(ps) != 1:
             raise Undecided(f"shockDE(shockWave={shock}): expected one regular path, found {len(ps)}")
         v = ps[0].value
         if not (isinstance(v, (list, tuple)) and len(v) == 2):
             raise Undecided("shockDE does not return [dxi/dv, dT/dv]")
         out[shock] = (v[0], v[1], ps[0].env)
+    ex.shockde_symbols = _state_symbols(ex, fi)
     return ex, fi, out
 
 
 def r03_1(chk: Check):
     ex, fi, out = _shockde(chk)
-    v = ex.sym("v")
-    xi = ex.sym("xiAndT[0]")
-    T = ex.sym("xiAndT[1]")
+    v, xi, T = ex.shockde_symbols
     for shock, (dxidv, dTdv, env) in out.items():
         cs = th("csqHighT" if shock else "csqLowT")(T)
         chk.ob("R03.1", fi.where(), f"shockDE(shockWave={shock}) uses the sound speed of the {'high' if shock else 'low'}-T phase at the local temperature",
@@ -64,16 +180,21 @@ def r03_1(chk: Check):
     # helpers
     S = chk.src
     exh = Extractor(S)
-    g = exh.single(S.func("helpers:gammaSq"))
-    b = exh.single(S.func("helpers:boostVelocity"))
+    fg, fb = S.func("helpers:gammaSq"), S.func("helpers:boostVelocity")
+    g = exh.single(fg)
+    b = exh.single(fb)
     chk.touch("helpers:gammaSq", "helpers:boostVelocity")
-    ok1, h1 = is_zero(g - 1 / (1 - exh.sym("v") ** 2), chk.seed)
-    ok2, h2 = is_zero(b - (exh.sym("xi") - exh.sym("v")) / (1 - exh.sym("xi") * exh.sym("v")), chk.seed)
-    chk.ob("R03.1", S.func("helpers:gammaSq").where(), "gammaSq(v) == 1/(1 - v^2)", ok1, h1, key="gammaSq", how=h1)
-    chk.ob("R03.1", S.func("helpers:boostVelocity").where(), "boostVelocity(xi, v) == (xi - v)/(1 - xi v)", ok2, h2, key="boostVelocity", how=h2)
-    # negative temperature is an error, not silently continued
-    raises = [x for x in own_nodes(fi.node) if isinstance(x, ast.Raise)]
-    chk.ob("R03.1", fi.where(), "shockDE raises when the temperature becomes non-positive", len(raises) == 1, key="T-positive")
+    (gv,), (bx, bv) = (exh.sym(p) for p in _params(fg)[:1]), (exh.sym(p) for p in _params(fb)[:2])
+    ok1, h1 = is_zero(g - 1 / (1 - gv ** 2), chk.seed)
+    ok2, h2 = is_zero(b - (bx - bv) / (1 - bx * bv), chk.seed)
+    chk.ob("R03.1", fg.where(), "gammaSq(v) == 1/(1 - v^2)", ok1, h1, key="gammaSq", how=h1)
+    chk.ob("R03.1", fb.where(), "boostVelocity(xi, v) == (xi - v)/(1 - xi v)", ok2, h2, key="boostVelocity", how=h2)
+    # negative temperature is an error, not silently continued: every raising path is taken exactly when T <= 0
+    raising = [q for q in ex.paths(fi) if q.raised is not None]
+    nonpos = {("LE", T, 0, True), ("GE", 0, T, True), ("GT", T, 0, False), ("LT", 0, T, False)}
+    okr = bool(raising) and all(any(isinstance(gd.term, sp.Basic) and len(gd.term.args) == 2 and (gd.term.func.__name__, gd.term.args[0], gd.term.args[1], gd.polarity) in nonpos
+                                    for gd in q.guards) for q in raising)
+    chk.ob("R03.1", fi.where(), "shockDE raises when the temperature becomes non-positive", okr, key="T-positive")
     chk.floor("R03.1", 9)
     return ex, out
 
@@ -81,36 +202,38 @@ def r03_1(chk: Check):
 def r03_2(chk: Check):
     S = chk.src
     ex = hydro_extractor(S)
-    ref = None
-    sites = [(f"{HY}.solveHydroShock", "shock"), (f"{HY}.efficiencyFactor", "shock")]
-    xi, T, v = ex.sym("xiAndT[0]"), ex.sym("xiAndT[1]"), ex.sym("v")
-    want = (xi - v) / (1 - xi * v) * xi - th("csqHighT")(T)
-    for outer, name in sites:
-        fi = S.func(f"{outer}.{name}")
+    for outer in (f"{HY}.solveHydroShock", f"{HY}.efficiencyFactor"):
+        fi, ivp = _event_function(S, outer)
         chk.touch(fi.name)
+        short = outer.split('.')[-1]
+        v, xi, T = _state_symbols(ex, fi)
+        want = (xi - v) / (1 - xi * v) * xi - th("csqHighT")(T)
         val = ex.single(fi)
         ok, how = is_zero(val - want, chk.seed)
-        chk.ob("R03.2", fi.where(), f"{outer.split('.')[-1]}: front condition is mu(xi, v) xi - csqHighT(T)", ok, f"{val}; {how}",
-               key=f"front|{outer.split('.')[-1]}", how=how)
+        chk.ob("R03.2", fi.where(), f"{short}: front condition is mu(xi, v) xi - csqHighT(T)", ok, f"{val}; {how}", key=f"front|{short}", how=how)
         fo = S.func(outer)
-        term = [st for st in own_nodes(fo.node) if isinstance(st, ast.Assign) and n(st.targets[0]) == f"{name}.terminal"]
-        chk.ob("R03.2", fo.where(), f"{outer.split('.')[-1]}: the front event is terminal", len(term) == 1 and n(term[0].value) == "True",
-               key=f"terminal|{outer.split('.')[-1]}")
-        ivp = [c for c in calls_in(fo.node, "solve_ivp") if kwarg(c, "events") is not None]
-        ok = bool(ivp) and all(n(kwarg(c, "events")) == name for c in ivp)
-        chk.ob("R03.2", fo.where(), f"{outer.split('.')[-1]}: the shock integration is stopped by that event", ok, key=f"events|{outer.split('.')[-1]}")
+        co = Ctx(S, fo)
+        name = fi.node.name
+        term = [st for st in own_nodes(fo.node) if isinstance(st, ast.Assign) and eqx(st.targets[0], f"{name}.terminal")]
+        chk.ob("R03.2", fo.where(), f"{short}: the front event is terminal", len(term) == 1 and eqx(term[0].value, "True", co), key=f"terminal|{short}")
+        # (the event function is by construction the one every solve_ivp call with `events` receives; a second, different one is an AnchorMissing)
+        shock_ivp = [c for c in calls_in(fo.node, "solve_ivp") if kwarg(c, "args", 8) is None]
+        ok = bool(ivp) and all(kwarg(c, "events", 6) is not None for c in shock_ivp)
+        chk.ob("R03.2", fo.where(), f"{short}: the shock integration is stopped by that event", ok, key=f"events|{short}")
     # template
-    ft = S.func(f"{TM}.integratePlasma.event")
+    fo = S.func(f"{TM}.integratePlasma")
+    ft, ivp = _event_function(S, f"{TM}.integratePlasma")
     chk.touch(ft.name)
     ext = hydro_extractor(S)
     val = ext.single(ft)
-    xit, vt = ext.sym("xiAndW[0]"), ext.sym("v")
+    vt, xit, _ = _state_symbols(ext, ft)
     wantt = (xit * (xit - vt) / (1 - xit * vt) - ext.sym("self.cs2"))
     ok, how = is_zero(sp.cancel(val / vt) - wantt, chk.seed)
     chk.ob("R03.2", ft.where(), "template: front event is v * (mu(xi, v) xi - cs^2): same zero set for v != 0", ok, f"{val}; {how}", key="front|template", how=how)
-    fo = S.func(f"{TM}.integratePlasma")
-    term = [st for st in own_nodes(fo.node) if isinstance(st, ast.Assign) and n(st.targets[0]) == "event.terminal"]
-    chk.ob("R03.2", fo.where(), "template: the event is terminal exactly when integrating the shock wave", len(term) == 1 and n(term[0].value) == "shockWave",
+    co = Ctx(S, fo)
+    term = [st for st in own_nodes(fo.node) if isinstance(st, ast.Assign) and eqx(st.targets[0], f"{ft.node.name}.terminal")]
+    flag = _params(fo)[3] if len(_params(fo)) > 3 else "?"
+    chk.ob("R03.2", fo.where(), "template: the event is terminal exactly when integrating the shock wave", len(term) == 1 and eqx(term[0].value, flag, co),
            key="terminal|template")
     chk.floor("R03.2", 8)
 
@@ -118,31 +241,61 @@ def r03_2(chk: Check):
 def r03_3(chk: Check):
     S = chk.src
     ex = hydro_extractor(S)
-    fi = S.func(f"{HY}.solveHydroShock.TiiShock")
+    fo = S.func(f"{HY}.solveHydroShock")
+    g = CFG(fo.node)
+    cx = Ctx(S, fo)
+    roots = [c for c in calls_in(fo.node, "root_scalar")]
+    if not roots:
+        raise AnchorMissing("solveHydroShock: the root_scalar search for the nucleation temperature not found")
+    fi = _nested_by_role(S, f"{HY}.solveHydroShock", fo, roots, "f", 0, "function whose root is searched")
     chk.touch(fi.name)
+    # the state behind the front: end point of the integrated solution
+    ivp = calls_in(fo.node, "solve_ivp")
+    SOL = _assigned_name(fo.node, ivp[0]) if len(ivp) == 1 else None
+    VM = XI = TM_ = None
+    if SOL is not None:
+        for st in own_nodes(fo.node):
+            if not isinstance(st, ast.Assign):
+                continue
+            b = match(st, f"__VM = {SOL}.t[-1]", cx)
+            VM = b["VM"] if b else VM
+            b = match(st, f"__XI, __TM = {SOL}.y[:, -1]", cx)
+            if b:
+                XI, TM_ = b["XI"], b["TM"]
+            b = match(st, f"__XI = {SOL}.y[0, -1]", cx)
+            XI = b["XI"] if b else XI
+            b = match(st, f"__TM = {SOL}.y[1, -1]", cx)
+            TM_ = b["TM"] if b else TM_
+    front_ok = None not in (VM, XI, TM_) and len({VM, XI, TM_}) == 3
     val = ex.single(fi)
-    tn, xs, vs, Ts = ex.sym("tn"), ex.sym("xiShock"), ex.sym("vmShock"), ex.sym("TmShock")
+    prm = _params(fi)
+    tn, xs, vs, Ts = ex.sym(prm[0] if prm else "?"), ex.sym(XI or "?xi"), ex.sym(VM or "?v"), ex.sym(TM_ or "?T")
     mu = (xs - vs) / (1 - xs * vs)
     want = th("wHighT")(tn) * xs / (1 - xs**2) - th("wHighT")(Ts) * mu / (1 - mu**2)
     ok, how = is_zero(val - want, chk.seed)
     chk.ob("R03.3", fi.where(), "TiiShock(tn) == w+(tn) gamma^2(xi_s) xi_s - w+(T_s) gamma^2(mu_s) mu_s, mu_s = mu(xi_s, v_s): "
            "energy flux is continuous across the front, plasma at rest ahead", ok, how, key="Tii", how=how)
-    fo = S.func(f"{HY}.solveHydroShock")
-    roots = [c for c in calls_in(fo.node, "root_scalar")]
-    ok = bool(roots) and all(n(c.args[0]) == "TiiShock" for c in roots)
-    chk.ob("R03.3", fo.where(), "the nucleation temperature is the root of TiiShock (both bracketed and secant branch)", ok and len(roots) == 2,
+    chk.ob("R03.3", fo.where(), "the nucleation temperature is the root of TiiShock (both bracketed and secant branch)", len(roots) == 2,
            key="Tn-root")
-    rets = [r for r in own_nodes(fo.node) if isinstance(r, ast.Return)]
-    conv = [x for x in own_nodes(fo.node) if isinstance(x, ast.If) and "converged" in n(x.test) and any(isinstance(b, ast.Raise) for b in x.body)]
-    chk.ob("R03.3", fo.where(), "a non-converged root raises instead of being returned", len(conv) == 1 and len(rets) == 1 and "root" in n(rets[0].value),
-           key="Tn-converged")
-    # front state used by TiiShock: solution end point, or the wall itself when the front coincides with it
-    assigns = {}
-    for st in own_nodes(fo.node):
-        if isinstance(st, ast.Assign):
-            assigns.setdefault(n(st.targets[0]).strip("()"), []).append(n(st.value))
-    ok = "solshock.t[-1]" in assigns.get("vmShock", []) and "solshock.y[:, -1]" in assigns.get("xiShock, TmShock", [])
-    chk.ob("R03.3", fo.where(), "the state behind the front is the end point of the integrated solution", ok, key="front-state")
+    # every returned value is the root of one of these searches, and the branch on which the search did not converge never returns
+    RES = {_assigned_name(fo.node, c) for c in roots}
+    rets = [r for r in g.nodes if isinstance(r, ast.Return)]
+    okc = len(RES) == 1 and None not in RES and bool(rets)
+    if okc:
+        R = next(iter(RES))
+        okc = all(has(r.value, f"{R}.root", cx) for r in rets)
+        tests = []
+        for t in g.nodes:
+            if g.kind.get(t) == "test":
+                e, pol = cx.resolve(t), True
+                while isinstance(e, ast.UnaryOp) and isinstance(e.op, ast.Not):
+                    e, pol = e.operand, not pol
+                if eqx(e, f"{R}.converged"):
+                    tests.append((t, pol))
+        okc = okc and len(tests) == 1 and all(g.must_pass(CFG.ENTRY, r, lambda q: q is tests[0][0]) for r in rets) \
+            and not g.reaches(g.branch(tests[0][0], not tests[0][1]), CFG.EXIT)
+    chk.ob("R03.3", fo.where(), "a non-converged root raises instead of being returned", okc, key="Tn-converged")
+    chk.ob("R03.3", fo.where(), "the state behind the front is the end point of the integrated solution", front_ok, key="front-state")
     chk.floor("R03.3", 4)
 
 
@@ -152,92 +305,114 @@ def r03_45(chk: Check):
     # --- solveHydroShock initial data
     fo = S.func(f"{HY}.solveHydroShock")
     chk.touch(fo.name)
+    go = CFG(fo.node)
+    co = Ctx(S, fo)
     env = {"__module__": "hydrodynamics", "__class__": "Hydrodynamics"}
-    defs = {}
-    for st in own_nodes(fo.node):
-        if isinstance(st, ast.Assign) and isinstance(st.targets[0], ast.Name):
-            defs.setdefault(st.targets[0].id, st.value)
-    vw, vp, Tp = ex.sym("vw"), ex.sym("vp"), ex.sym("Tp")
-    vpc = ex.expr(defs["vpcent"], env) if "vpcent" in defs else None
-    ok, how = (None, "vpcent not found") if vpc is None else is_zero(vpc - (vw - vp) / (1 - vw * vp), chk.seed)
+    prm = _params(fo)
+    if len(prm) != 3:
+        raise AnchorMissing("solveHydroShock: expected parameters (vw, vp, Tp)")
+    vw, vp, Tp = (ex.sym(p) for p in prm)
+    ivp = calls_in(fo.node, "solve_ivp")
+    if len(ivp) != 1:
+        raise AnchorMissing("solveHydroShock: the solve_ivp integration of the shock not found")
+    at = go.node_of(ivp[0])
+    span, y0 = kwarg(ivp[0], "t_span", 1), kwarg(ivp[0], "y0", 2)
+    start = _first(_value_at(go, co, at, span)) if span is not None else None
+    vpc = ex.expr(co.resolve(start), dict(env)) if start is not None else None
+    ok, how = (None, "start of the integration range not found") if vpc is None else is_zero(vpc - (vw - vp) / (1 - vw * vp), chk.seed)
     chk.ob("R03.4", fo.where(), "solveHydroShock: integration starts at the fluid velocity mu(vw, v+) (wall frame -> plasma frame)", ok, how,
            key="start-velocity|solveHydroShock", how=how)
-    x0 = ex.expr(defs["xi0T0"], env) if "xi0T0" in defs else None
-    chk.ob("R03.4", fo.where(), "solveHydroShock: initial data are (xi, T) = (vw, T+)", x0 == [vw, Tp], str(x0), key="start-data|solveHydroShock")
-    ivp = calls_in(fo.node, "solve_ivp")
-    ok = len(ivp) == 1 and n(ivp[0].args[0]) == "self.shockDE" and n(ivp[0].args[2]) == "xi0T0" and \
-        isinstance(ivp[0].args[1], ast.List) and n(ivp[0].args[1].elts[0]) == "vpcent"
+    x0 = ex.expr(co.resolve(_value_at(go, co, at, y0)), dict(env)) if y0 is not None else None
+    chk.ob("R03.4", fo.where(), "solveHydroShock: initial data are (xi, T) = (vw, T+)", isinstance(x0, (list, tuple)) and list(x0) == [vw, Tp], str(x0), key="start-data|solveHydroShock")
+    ok = eqx(kwarg(ivp[0], "fun", 0), "self.shockDE", co) and start is not None and y0 is not None
     chk.ob("R03.4", fo.where(), "solveHydroShock integrates self.shockDE from v = mu(vw, v+) downwards with those data", ok, key="ivp|solveHydroShock")
     # --- efficiencyFactor
     fe = S.func(f"{HY}.efficiencyFactor")
     chk.touch(fe.name)
+    ge = CFG(fe.node)
+    ce = Ctx(S, fe)
     paths = [p for p in ex.paths(fe) if p.raised is None]
-    full = [p for p in paths if all(g.polarity for g in p.guards)]
-    if len(full) != 1:
-        raise Undecided(f"efficiencyFactor: expected one all-branches path, found {len(full)}")
-    envf = full[0].env
+    full = _two_wave_path(paths, "efficiencyFactor")
+    envf = full.env
+    pe = _params(fe)
+    vw = ex.sym(pe[0])
     fm = fn("findMatching")(vw)
     mvp, mvm, mTp, mTm = (fn("getitem")(fm, i) for i in range(4))
     ivps = calls_in(fe.node, "solve_ivp")
     chk.ob("R03.4", fe.where(), "efficiencyFactor integrates the same self.shockDE for the shock and for the rarefaction wave",
-           len(ivps) == 2 and all(n(c.args[0]) == "self.shockDE" for c in ivps), key="same-ode")
-    rare = [c for c in ivps if kwarg(c, "args") is not None]
-    ok = len(rare) == 1 and n(kwarg(rare[0], "args")) in ("(False,)", "(False, )") and kwarg(rare[0], "events") is None
+           len(ivps) == 2 and all(eqx(kwarg(c, "fun", 0), "self.shockDE", ce) for c in ivps), key="same-ode")
+    rare = [c for c in ivps if kwarg(c, "args", 8) is not None]
+    shockw = [c for c in ivps if kwarg(c, "args", 8) is None]
+    ok = len(rare) == 1 and eqx(kwarg(rare[0], "args", 8), "(False,)", ce) and kwarg(rare[0], "events", 6) is None
     chk.ob("R03.4", fe.where(), "the rarefaction wave is integrated with shockWave=False (low-T sound speed) and no front event", ok, key="rarefaction-args")
-    ok1, h1 = is_zero(envf["vpcent"] - (vw - mvp) / (1 - vw * mvp), chk.seed)
-    ok2, h2 = is_zero(envf["vmcent"] - (vw - mvm) / (1 - vw * mvm), chk.seed)
+    if len(rare) != 1 or len(shockw) != 1:
+        raise AnchorMissing("efficiencyFactor: the shock-wave and the rarefaction-wave integration not found")
+    starts, data = {}, {}
+    for which, c in (("shock", shockw[0]), ("rare", rare[0])):
+        at = ge.node_of(c)
+        span, y0 = kwarg(c, "t_span", 1), kwarg(c, "y0", 2)
+        s0 = _first(_value_at(ge, ce, at, span)) if span is not None else None
+        starts[which] = ex.expr(_value_at(ge, ce, at, s0), envf) if s0 is not None else None
+        d0 = _value_at(ge, ce, at, y0) if y0 is not None else None
+        data[which] = ex.expr(d0, envf) if d0 is not None else None
+    ok1, h1 = is_zero(starts["shock"] - (vw - mvp) / (1 - vw * mvp), chk.seed) if isinstance(starts["shock"], sp.Basic) else (False, "start not found")
+    ok2, h2 = is_zero(starts["rare"] - (vw - mvm) / (1 - vw * mvm), chk.seed) if isinstance(starts["rare"], sp.Basic) else (False, "start not found")
     chk.ob("R03.4", fe.where(), "efficiencyFactor: shock starts at mu(vw, v+), rarefaction at mu(vw, v-), with (v+, v-, T+, T-) = findMatching(vw)",
            ok1 and ok2, f"{h1}; {h2}", key="start-velocity|efficiencyFactor", how=h1)
-    # initial data lists: first assignment [vw, Tp], second [vw, Tm]
-    x0s = [st.value for st in own_nodes(fe.node) if isinstance(st, ast.Assign) and n(st.targets[0]) == "xi0T0"]
-    x0s.sort(key=lambda e: e.lineno)
-    ok = len(x0s) == 2 and [n(e) for e in x0s[0].elts] == ["vw", "Tp"] and [n(e) for e in x0s[1].elts] == ["vw", "Tm"]
-    chk.ob("R03.4", fe.where(), "efficiencyFactor: shock data (vw, T+), rarefaction data (vw, T-)", ok, key="start-data|efficiencyFactor")
+    ok = isinstance(data["shock"], (list, tuple)) and list(data["shock"]) == [vw, mTp] and isinstance(data["rare"], (list, tuple)) and list(data["rare"]) == [vw, mTm]
+    chk.ob("R03.4", fe.where(), "efficiencyFactor: shock data (vw, T+), rarefaction data (vw, T-)", ok, f"{data}"[:200], key="start-data|efficiencyFactor")
     # --- kappa
-    kSW, kRW = envf.get("kappaSW"), envf.get("kappaRW")
-    simp = sp.Function("simpson")
     wn = th("wHighT")(ex.sym("self.Tnucl"))
     aln = ex.sym("self.template.alN")
-    for nm, val, sol, wf, sign in (("shock wave", kSW, "solShock", "wHighT", 1), ("rarefaction wave", kRW, "solRarefaction", "wLowT", -1)):
+    found = []
+    for nm, call, wf, sign in (("shock wave", shockw[0], "wHighT", 1), ("rarefaction wave", rare[0], "wLowT", -1)):
+        sol = _assigned_name(fe.node, call)
         ok = None
+        val, c, x_, y_ = _contribution(full.value, sol) if sol else (None, None, None, None)
         detail = str(val)[:200]
-        if isinstance(val, sp.Basic):
-            calls = [a for a in val.atoms(sp.Function) if a.func == simp]
-            if len(calls) == 1:
-                c = calls[0]
-                x_, y_ = c.args  # kwargs sorted: x, y
-                pref = sp.simplify(val / c)
-                ok1, h1 = is_zero(pref - sign * 4 / (vw**3 * wn * aln), chk.seed)
-                vpl = ex.sym(f"{sol}.t")
-                comp = sp.Function("COMP")(th(wf)(ex.sym("t")))
-                ok2, h2 = is_zero(y_ - x_**2 * vpl**2 / (1 - vpl**2) * comp, chk.seed)
-                okx = str(x_).startswith(f"{sol}.y")
-                ok = bool(ok1 and ok2 and okx)
-                detail = f"prefactor: {h1}; integrand: {h2}; x = {x_}"
+        if val is not None:
+            found.append(val)
+            pref = sp.simplify(val / c)
+            ok1, h1 = is_zero(pref - sign * 4 / (vw**3 * wn * aln), chk.seed)
+            vpl = ex.sym(f"{sol}.t")
+            # the enthalpy profile: the phase's enthalpy evaluated point by point (a comprehension over a bound variable)
+            comps = [a for a in y_.atoms(sp.Function) if a.func == COMP]
+            ok2, h2 = False, "enthalpy profile not found"
+            if len(comps) == 1 and comps[0].args[0].func == th(wf) and len(comps[0].args[0].args) == 1 and isinstance(comps[0].args[0].args[0], sp.Symbol) \
+                    and comps[0].args[0].args[0] not in (vw, x_, vpl):
+                W = sp.Symbol("enthalpyProfile__", positive=True)
+                ok2, h2 = is_zero(y_.subs(comps[0], W) - x_**2 * vpl**2 / (1 - vpl**2) * W, chk.seed)
+            okx = x_.name == f"{sol}.y[0]"
+            ok = bool(ok1 and ok2 and okx)
+            detail = f"prefactor: {h1}; integrand: {h2}; x = {x_}"
         chk.ob("R03.5", fe.where(), f"kappa ({nm}) == {'+' if sign > 0 else '-'}4/(vw^3 w_n alpha_n) * Simpson[xi^2 v^2 gamma^2(v) {wf}(T)] d xi over that wave's solution",
                ok, detail, key=f"kappa|{nm}")
-    chk.ob("R03.5", fe.where(), "kappa is the sum of the two contributions", full[0].value == kSW + kRW, str(full[0].value)[:100], key="kappa-sum")
+    chk.ob("R03.5", fe.where(), "kappa is the sum of the two contributions", len(found) == 2 and sp.simplify(full.value - found[0] - found[1]) == 0, str(full.value)[:100],
+           key="kappa-sum")
     # template sibling
     ft = S.func(f"{TM}.efficiencyFactor")
     chk.touch(ft.name)
+    ct = Ctx(S, ft)
     ext = hydro_extractor(S)
-    pt = [p for p in ext.paths(ft) if p.raised is None and all(g.polarity for g in p.guards)]
-    if len(pt) != 1:
-        raise Undecided("template efficiencyFactor: path")
-    et = pt[0].env
-    for nm, val, sol, sign in (("shock wave", et.get("kappaSW"), "solShock", 1), ("rarefaction wave", et.get("kappaRW"), "solRarefaction", -1)):
+    pt = _two_wave_path([p for p in ext.paths(ft) if p.raised is None], "template efficiencyFactor")
+    pv = _params(ft)
+    tvw = ext.sym(pv[0])
+    ips = calls_in(ft.node, "integratePlasma")
+    tshock = [c for c in ips if kwarg(c, "shockWave", 3) is None or eqx(kwarg(c, "shockWave", 3), "True", ct)]
+    trare = [c for c in ips if kwarg(c, "shockWave", 3) is not None and eqx(kwarg(c, "shockWave", 3), "False", ct)]
+    if len(tshock) != 1 or len(trare) != 1:
+        raise AnchorMissing("template efficiencyFactor: the two integratePlasma calls not found")
+    for nm, call, sign in (("shock wave", tshock[0], 1), ("rarefaction wave", trare[0], -1)):
+        sol = _assigned_name(ft.node, call)
         ok = None
+        val, c, x_, y_ = _contribution(pt.value, sol) if sol else (None, None, None, None)
         detail = str(val)[:200]
-        if isinstance(val, sp.Basic):
-            calls = [a for a in val.atoms(sp.Function) if a.func == simp]
-            if len(calls) == 1:
-                c = calls[0]
-                x_, y_ = c.args
-                ok1, h1 = is_zero(sp.simplify(val / c) - sign * 4 / (ext.sym("vw") ** 3 * ext.sym("self.alN")), chk.seed)
-                vpl = ext.sym(f"{sol}.t")
-                ok2, h2 = is_zero(y_ - x_**2 * vpl**2 / (1 - vpl**2) * ext.sym(f"{sol}.y[1]"), chk.seed)
-                ok = bool(ok1 and ok2 and str(x_) == f"{sol}.y[0]")
-                detail = f"{h1}; {h2}; x={x_}"
+        if val is not None:
+            ok1, h1 = is_zero(sp.simplify(val / c) - sign * 4 / (tvw ** 3 * ext.sym("self.alN")), chk.seed)
+            vpl = ext.sym(f"{sol}.t")
+            ok2, h2 = is_zero(y_ - x_**2 * vpl**2 / (1 - vpl**2) * ext.sym(f"{sol}.y[1]"), chk.seed)
+            ok = bool(ok1 and ok2 and x_.name == f"{sol}.y[0]")
+            detail = f"{h1}; {h2}; x={x_}"
         chk.ob("R03.5", ft.where(), f"template kappa ({nm}) has the same integrand and prefactor with w_n = 1 (enthalpy in units of w_n)", ok, detail,
                key=f"template-kappa|{nm}")
     chk.floor("R03.4", 7)
@@ -249,16 +424,20 @@ def r03_6(chk: Check, ex, out):
     ft = S.func(f"{TM}._dxiAndWdv")
     chk.touch(ft.name)
     ext = hydro_extractor(S)
-    v, xi, T = ex.sym("v"), ex.sym("xiAndT[0]"), ex.sym("xiAndT[1]")
+    v, xi, T = ex.shockde_symbols
+    pt = _params(ft)
+    if len(pt) != 3:
+        raise AnchorMissing("_dxiAndWdv: expected parameters (v, xiAndW, shockWave)")
+    vt, xt, wt = _state_symbols(ext, ft)
     for shock in (True, False):
-        ps = [p for p in ext.paths(ft, {"shockWave": shock}) if p.raised is None]
-        reg = [p for p in ps if all(g.polarity for g in p.guards)]  # v != 0 branch
+        ps = [p for p in ext.paths(ft, {pt[2]: shock}) if p.raised is None]
+        # the regular branch (v != 0): the one whose d xi/dv is not the constant stand-in
+        reg = [p for p in ps if isinstance(p.value, (list, tuple)) and len(p.value) == 2 and isinstance(p.value[0], sp.Basic) and p.value[0].free_symbols]
         if len(reg) != 1:
             raise Undecided("_dxiAndWdv: regular branch not found")
         val = reg[0].value
         dx, dw = val
         csT = ext.sym("self.cs2" if shock else "self.cb2")
-        xt, wt, vt = ext.sym("xiAndW[0]"), ext.sym("xiAndW[1]"), ext.sym("v")
         code_dx = out[shock][0].subs({xi: xt, v: vt}).replace(th("csqHighT" if shock else "csqLowT"), lambda a: csT)
         ok, how = is_zero(dx - code_dx, chk.seed)
         chk.ob("R03.6", ft.where(), f"template d xi/dv (shockWave={shock}) equals shockDE's with constant sound speed", ok, how,
